@@ -8,11 +8,11 @@ from mc.refmesh import halves, quarters, ref_from_leaves
 
 QUICK = {'open1x1': 5, 'glued1x1': 5, 'glued2x1': 4, 'glued3x1': 4, 'open2x2': 3, 'glued2x2': 4,
          'open_irreg3x3': 3, 'glued_irreg3x3': 3, 'UnitInterval': 5, 'Circle': 3, 'UnitSquare': 4,
-         'PiSquare': 3, 'LShape': 3, 'LShapeDriver': 2, 'Circle2': 2, 'UnitSquare2': 2, 'LShape2': 2}
+         'PiSquare': 3, 'LShape': 3, 'LShapeDriver': 2, 'Circle2': 2, 'UnitSquare2': 2, 'LShape2': 2, 'glued2x1np': 2}
 DEEP = ('glued2x2', 'Circle', 'UnitSquare', 'LShapeDriver', 'open_irreg3x3', 'glued1x1')
 THOROUGH = {'open1x1': 6, 'glued1x1': 6, 'glued2x1': 5, 'glued3x1': 5, 'open2x2': 4, 'glued2x2': 4,
             'open_irreg3x3': 3, 'glued_irreg3x3': 3, 'UnitInterval': 6, 'Circle': 4, 'UnitSquare': 4,
-            'PiSquare': 4, 'LShape': 4, 'LShapeDriver': 3, 'Circle2': 3, 'UnitSquare2': 3, 'LShape2': 3}
+            'PiSquare': 4, 'LShape': 4, 'LShapeDriver': 3, 'Circle2': 3, 'UnitSquare2': 3, 'LShape2': 3, 'glued2x1np': 3}
 
 
 def derived_ops(cfg, h, m, ref):
